@@ -544,6 +544,13 @@ class FuncVal(Val):
         self.bound = bound
 
 
+class PartialFn(Val):
+    def __init__(self, fn, args, kwargs):
+        self.fn = fn
+        self.args = list(args)
+        self.kwargs = dict(kwargs)
+
+
 class Builtin(Val):
     def __init__(self, name):
         self.name = name
@@ -582,7 +589,7 @@ class Poison(Val):
 
 BUILTINS = {'int', 'str', 'len', 'sum', 'divmod', 'zip', 'enumerate', 'reversed', 'range', 'list', 'tuple', 'map',
             'filter', 'min', 'max', 'abs', 'bool', 'iter', 'sorted'}
-EXT = {'itertools.cycle': 'cycle', 'functools.reduce': 'reduce', 're.sub': 're.sub', 'itertools.islice': 'islice',
+EXT = {'itertools.cycle': 'cycle', 'functools.reduce': 'reduce', 'functools.partial': 'partial', 're.sub': 're.sub', 'itertools.islice': 'islice',
        'itertools.chain': 'chain', 'string.digits': 'string.digits', 'operator.add': 'operator.add',
        'itertools.accumulate': 'accumulate', 'math.ceil': 'ceil'}
 
@@ -1646,6 +1653,8 @@ class FoldEval:
             return self.call_def(f.node, args, f.module, closure=f.env, kwargs=kwargs)
         if isinstance(f, ClassVal):
             return self.instantiate(f.ci, args, kwargs)
+        if isinstance(f, PartialFn):
+            return self.call(f.fn, f.args + list(args), {**f.kwargs, **kwargs})
         if isinstance(f, BoundMethod):
             return self.method(f.recv, f.name, args, kwargs)
         if isinstance(f, Builtin):
@@ -1962,6 +1971,11 @@ class FoldEval:
         if c is None or any(y[0] == 'cur' for y in walk(c)):
             raise Unsupported('reduce step is not additive')
         return IntVal(add(init.t, self.make_sum(i, fam.count, c)))
+
+    def b_partial(self, args, kw):
+        if not args:
+            raise Unsupported('partial()')
+        return PartialFn(args[0], args[1:], kw)
 
     def b_operator_add(self, args, kw):
         return self.binop(ast.Add(), args[0], args[1])
